@@ -27,6 +27,8 @@ type Case struct {
 	Kind     string `json:"kind"`
 	Protocol string `json:"protocol"`
 	Tree     []Node `json:"tree"`
+	// SharedBacking: all groups are sub-slices of one backing array.
+	SharedBacking bool `json:"shared_backing,omitempty"`
 	// Reuse: how many other clients/handlers the very same option values are
 	// applied to first (generated service constructors pass one option list to
 	// every procedure of the service).
@@ -36,6 +38,11 @@ type Case struct {
 type evlog struct {
 	mu sync.Mutex
 	ev []string
+	// shared: every WithInterceptors group is a sub-slice list[a:b] of one
+	// backing array (with spare capacity behind it), the way an application
+	// that keeps all its interceptors in one slice would pass them
+	shared bool
+	arena  []connect.Interceptor
 }
 
 func (l *evlog) add(s string) {
@@ -107,6 +114,17 @@ func (i *ic) WrapStreamingHandler(next connect.StreamingHandlerFunc) connect.Str
 }
 
 func icList(ids []int, log *evlog) []connect.Interceptor {
+	if log.shared {
+		start := len(log.arena)
+		for _, id := range ids {
+			if id < 0 {
+				log.arena = append(log.arena, nil)
+			} else {
+				log.arena = append(log.arena, &ic{id: id, log: log})
+			}
+		}
+		return log.arena[start:len(log.arena)] // capacity reaches to the end of the backing array
+	}
 	out := make([]connect.Interceptor, 0, len(ids))
 	for _, id := range ids {
 		if id < 0 {
@@ -234,7 +252,11 @@ func check(tt *testing.T, c Case) (pbt.Info, error) {
 	if nils >= 1 {
 		info.Label("nil-entries")
 	}
-	log := &evlog{}
+	log := &evlog{shared: c.SharedBacking}
+	if c.SharedBacking {
+		info.Label("groups-share-one-backing-array")
+		log.arena = make([]connect.Interceptor, 0, len(ids)+nils+3)
+	}
 	cfg := prog.Config{Protocol: c.Protocol, Codec: "proto", Kind: c.Kind}
 	var hopts []connect.HandlerOption
 	copts := cfg.ClientOptions()
@@ -374,6 +396,7 @@ func gen(t *rapid.T) Case {
 		Protocol: rapid.SampledFrom(prog.Protocols).Draw(t, "protocol"),
 		Reuse:    rapid.SampledFrom([]int{0, 0, 1, 2}).Draw(t, "reuse"),
 	}
+	c.SharedBacking = rapid.Bool().Draw(t, "sharedBacking")
 	next := 0
 	k := rapid.IntRange(1, 4).Draw(t, "ntop")
 	for i := 0; i < k; i++ {
@@ -384,7 +407,7 @@ func gen(t *rapid.T) Case {
 
 var spec = pbt.Spec[Case]{
 	Prop: "C16", Name: "trees", Gen: gen, Check: check,
-	Rule: "rapid-generated option trees: up to 6 labelled interceptors (nil entries anywhere) spread over WithInterceptors groups nested up to depth 3 inside WithOptions / WithClientOptions / WithHandlerOptions, interleaved with empty WithInterceptors() and unrelated options; the same option values optionally applied to 1–2 other clients/handlers first (as generated constructors do); × {client, handler} × 4 RPC kinds × 3 protocols; oracle: reference model = flat concatenation minus nils, checked on an event log (request/Send order 1..m, response/Receive completion order m..1, each interceptor wraps once); non-trivial = ≥2 effective interceptors AND (≥2 groups OR nesting OR a nil entry)",
+	Rule: "rapid-generated option trees: up to 6 labelled interceptors (nil entries anywhere) spread over WithInterceptors groups nested up to depth 3 inside WithOptions / WithClientOptions / WithHandlerOptions, interleaved with empty WithInterceptors() and unrelated options; the groups are either separate slices or sub-slices list[a:b] of one backing array with spare capacity; the same option values optionally applied to 1–2 other clients/handlers first (as generated constructors do); × {client, handler} × 4 RPC kinds × 3 protocols; oracle: reference model = flat concatenation minus nils, checked on an event log (request/Send order 1..m, response/Receive completion order m..1, each interceptor wraps once); non-trivial = ≥2 effective interceptors AND (≥2 groups OR nesting OR a nil entry)",
 }
 
 func TestTrees(t *testing.T) { pbt.Run(t, spec) }
@@ -420,7 +443,7 @@ func TestCompositions(t *testing.T) {
 				}
 				for _, side := range []string{"client", "handler"} {
 					for _, kind := range prog.Kinds {
-						c := Case{Side: side, Kind: kind, Protocol: prog.Protocols[(n+comp+mask)%3], Tree: tree, Reuse: (comp + mask) % 3}
+						c := Case{Side: side, Kind: kind, Protocol: prog.Protocols[(n+comp+mask)%3], Tree: tree, Reuse: (comp + mask) % 3, SharedBacking: (comp+mask+n)%2 == 1}
 						info, err := check(t, c)
 						total++
 						if info.NonTrivial {
